@@ -1622,6 +1622,16 @@ class Gen:
             return self.g_ser(actor)
         return {"op": "peer_roundtrip", "p": r.choice(names)}
 
+    def g_peer_source_cycles(self, actor: str) -> dict[str, Any] | None:
+        r = self.r("cycles")
+        if self.w.peer is None:
+            return None
+        batches = []
+        for _ in range(r.choice([2, 2, 3, 4])):
+            src = r.sample(["a", "b", "c"], r.choice([1, 1, 2, 3]))
+            batches.append({"src": src, "leaves": [r.choice(src) for _ in range(r.choice([1, 2, 3]))], "idx": r.random() < 0.8})
+        return {"op": "peer_source_cycles", "batches": batches}
+
     def g_peer_cid(self, actor: str) -> dict[str, Any] | None:
         ref = self.pick_ref(actor, root_bias=0.7)
         if ref is None or self.w.peer is None or len(walk(self.w.node_at(ref))) > 20:
@@ -1790,7 +1800,7 @@ BASE_WEIGHTS = {
     "C01": {"construct": 6, "twin": 6, "drop": 2, "detach_self": 1.5, "detach": 1, "duplicate": 2, "dc_replace": 3, "replace": 2,
             "ser": 1, "deser": 1, "peer_cid": 1.5, "transform": 0.5, "obs": 0.5},
     "C04": {"construct": 5, "twin": 3, "drop": 2, "crash": 3, "detach_self": 1.5, "detach": 1, "duplicate": 1, "dc_replace": 1, "replace": 1.5,
-            "ser": 6, "deser": 7, "peer_roundtrip": 1.0, "obs": 1.0},
+            "ser": 6, "deser": 7, "peer_roundtrip": 1.0, "peer_source_cycles": 0.4, "obs": 1.0},
     "C09": {"construct": 5, "twin": 2, "drop": 2, "detach_self": 1.5, "detach": 1, "duplicate": 1, "replace": 1, "transform": 8, "obs": 0.5},
 }
 
@@ -2499,6 +2509,31 @@ def op_peer_cid(self: World, op: dict[str, Any]) -> str:
             f"a {cls} built from the same spec has content_id {mine[k]} here and {rep['cids'][k]} in a process with another hash seed / field order",
             spec=spec,
         )
+    return "ok"
+
+
+@_w2("op_peer_source_cycles")
+def op_peer_source_cycles(self: World, op: dict[str, Any]) -> str:
+    """C04, last clause: index-based documents of several producers (each with its own source table) are read by one
+    consumer process that runs the documented cycle once per batch."""
+    if self.peer is None:
+        raise SkipOp("no peer")
+    rep = self.peer.request({"op": "source_cycles", "batches": op["batches"], "digest": self.cfg["digest"]})
+    if "error" in rep:
+        if rep["error"].startswith("peer-harness"):
+            raise HarnessError(rep["error"])
+        if self.on("C04"):
+            raise self.viol("C04.0 deserialize-raised", f"C04.0:source-cycles:{rep['error'].split(':')[0]}", f"batch cycle (clear_registry, load_serialized_sources, read): {rep['error']}")
+        raise Cut("peer source cycles raised " + rep["error"])
+    self.stats.probes["source_table_cycles"] += 1
+    for b, seen in zip(op["batches"], rep["seen"]):
+        want = [[f"{k}{i}", U.SRC[k].source_uri] for i, k in enumerate(b["leaves"])]
+        if self.on("C04") and seen != want:
+            raise self.viol(
+                "C04.9 index-based-sources",
+                "C04.9:source-cycles",
+                f"a document written with index-based sources {b['src']} came back, after its sources had been loaded into a cleared table, attached to {[x[1] for x in seen]} instead of {[x[1] for x in want]}",
+            )
     return "ok"
 
 
